@@ -118,9 +118,10 @@ def _step(n: int, m: int, flavour: str, N: int, K: int, new_avail: bool,
         P.cover("closing")
     K_eff = K if K < N else N
 
-    # ---------------------------------------------------------------- C04
-    P.check(len(L1) <= N, "len<=max_connections", "step:len>N", prop="C04")
-    P.check(len(set(map(id, L1))) == len(L1), "no-duplicate-connection", "step:dup", prop="C04")
+    # ---------------------------------------------------------------- C04 (and C08(c) on the sync module)
+    for prop in ("C04", "C08"):
+        P.check(len(L1) <= N, "len<=max_connections", "step:len>N", prop=prop)
+        P.check(len(set(map(id, L1))) == len(L1), "no-duplicate-connection", "step:dup", prop=prop)
     for c in L0:
         if not any(c is x for x in L1):
             P.check(any(c is x for x in closing) or c.is_closed(), "removed-implies-closing-or-closed",
@@ -235,6 +236,9 @@ def _sh(shapes: typing.Sequence[tuple[int, int]], deep: bool = False) -> list[di
         "C10": {"quick": _sh(((2, 1), (1, 2)))},
         "C07": {"quick": _sh(((2, 2),))},
         "C09": {"quick": _sh(((2, 2), (3, 1)))},
+        # C08(c): atomic-step invariants of the step as the sync pool runs it (under its lock)
+        "C08": {"quick": [s for s in _sh(((2, 2),)) if s["flavour"] == "sync"],
+                "thorough": [s for s in _sh(((2, 2), (3, 1), (1, 3), (3, 2)), deep=True) if s["flavour"] == "sync"]},
     },
     example=dict(N=2, K=1, new_avail=False,
                  a0=False, b0=False, c0=True, d0=True, a1=False, b1=False, c1=False, d1=False,
@@ -244,7 +248,7 @@ def _sh(shapes: typing.Sequence[tuple[int, int]], deep: bool = False) -> list[di
     timeout={"quick": 300, "thorough": 2400},
     symbolic="N, K (unbounded); per connection 4 predicate booleans + port (unbounded); per request queued flag + port; whether a new connection multiplexes",
     bounds=BOUNDS, outside=OUTSIDE, stubs=STUBS,
-    also=("C01", "C07", "C09", "C10"),
+    also=("C01", "C07", "C08", "C09", "C10"),
 )
 def poolstep(N: int, K: int, new_avail: bool,
              a0: bool, b0: bool, c0: bool, d0: bool,
